@@ -172,9 +172,10 @@ def impl_t_profile(spec):
         return stg.sine_t_profile(period=_Q(spec, 'period', 'time'), phase=spec['phase'],
                                   amplitude=spec['amplitude'], level=spec['level'])
     if k == 'periodic_gaussian_t_profile':
-        kw = dict(pulse_width=_Q(spec, 'pulse_width', 'time'), period=_Q(spec, 'period', 'time'), phase=spec['phase'],
+        pn = spec['pnum'] if not spec.get('pnum_np') else np.dtype(spec['pnum_np']).type(spec['pnum'])
+        kw = dict(pulse_width=_Q(spec, 'pulse_width', 'time'), period=_Q(spec, 'period', 'time'), phase=_Q(spec, 'phase', 'time'),
                   pulse_offset_width=_Q(spec, 'pulse_offset_width', 'time'), pulse_direction=spec['pulse_direction'],
-                  pnum=spec['pnum'], amplitude=spec['amplitude'], level=spec['level'], seed=spec['seed'])
+                  pnum=pn, amplitude=spec['amplitude'], level=spec['level'], seed=spec['seed'])
         if spec.get('min_level') is not None:
             kw['min_level'] = spec['min_level']          # None: the documented default floor (0) is left to the library
         return stg.periodic_gaussian_t_profile(**kw)
